@@ -40,9 +40,9 @@ def build(scratch):
 
 OBS = {
     "parallel_marker_continuation_arm_contract": dict(kind="bounded", bound="captured stack of 3 values, the innermost frame + 3 saved frames (no attachments / a handler / attachments without handler) capturing 1-2 values each", functions=["MarkAndSweepContextRefQueue::visit_continuation"],
-        contract="a captured (closed) continuation keeps alive every value of its saved operand stack, every value captured by the function of EVERY saved frame - with or without attachments - and of the innermost frame, and every attached handler: each is handed to the work list and kept alive; an open continuation contributes nothing (its frames are still on the live stack)"),
+        contract="a captured (closed) continuation keeps alive every value of its saved operand stack, every value captured by the function of EVERY saved frame - with or without attachments - and of the innermost frame, and every attached handler: each is handed to the work list (the handler, a temporary clone, is also kept alive); an open continuation contributes nothing (its frames are still on the live stack)"),
     "parallel_marker_container_arms_contract": dict(kind="bounded", bound="containers of 2-3 children (closures and leaves)", functions=["MarkAndSweepContextRefQueue::visit_hash_map", "visit_hash_set", "visit_immutable_vector", "visit_steel_struct", "visit_stream", "visit_pair", "visit_boxed_value", "visit_closure", "visit_syntax_object"],
-        contract="every child is handed to the work list: keys and values of maps, both halves of a pair, fields, elements, boxed content (kept alive while traversed), captured values and the attached contract of a closure, datum and raw datum of a syntax object"),
+        contract="every child is handed to the work list: keys and values of maps, both halves of a pair, fields, elements, boxed content, captured values and the attached contract of a closure, datum and raw datum of a syntax object"),
     "parallel_marker_transducer_reducer_arms_contract": dict(kind="bounded", bound="one stage of every transducer kind; ForEach / Generic / Sum reducers", functions=["MarkAndSweepContextRefQueue::visit_transducer", "MarkAndSweepContextRefQueue::visit_reducer"],
         contract="every value held by a transducer stage and by a reducer (function and initial value) is handed to the work list"),
 }
